@@ -646,8 +646,77 @@ def _guarded(ctx, name, fn):
         return 0
 
 
+def check_candidate_call(ctx: Ctx):
+    """R03.7: every matcher hands the candidate function the pair's own prediction array,
+    reference array and reference labels (uncrossed) and its configured matching metric.
+    The matcher is run abstractly on a symbolic pair up to the call (wrappers are inlined)."""
+    from fractions import Fraction
+
+    from .resultrun import ResultInterp
+
+    prog = ctx.prog
+    target = prog.func("_functionals:_calc_matching_metric_of_overlapping_labels")
+    base = prog.cls("instance_matcher:InstanceMatchingAlgorithm")
+    pcls = prog.cls("utils.processing_pair:UnmatchedInstancePair")
+    n = 0
+    for cls in sorted(base.all_subclasses(), key=lambda c: c.qual):
+        f = cls.methods.get("_match_instances")
+        if f is None:
+            continue
+        # only matchers that use the candidate function at all
+        mv, me = make_metric_objs(prog, False)
+        pair = Obj(pcls, {"_prediction_arr": Sym("PRED_ARR"), "_reference_arr": Sym("REF_ARR"), "_ref_labels": Sym("REF_LABELS"), "_pred_labels": Sym("PRED_LABELS"), "n_dim": 3})
+        matcher = Obj(cls, {"_matching_metric": me, "_matching_threshold": Fraction(1, 2), "_allow_many_to_one": False})
+        calls = []
+
+        class CallInterp(ResultInterp):
+            def external_call(self, name, args, kwargs, node):
+                if name == target.qual:
+                    calls.append((list(args), dict(kwargs), node))
+                    return []
+                return super().external_call(name, args, kwargs, node)
+
+        params = [p.name for p in f.call_params]
+        args = {params[0]: pair} if params else {}
+        it = CallInterp(prog, f, {**args, f.self_name: matcher}, metrics=[me])
+        it.root.no_inline = {target.qual}
+        try:
+            out = it.run()
+        except Undecided as e:
+            if not calls:
+                ctx.undecided("R03.7", f, f.node, f"{f.qual}:candidate-call", f"matcher not evaluable up to the candidate call: {e}")
+                continue
+            out = None
+        if not calls:
+            continue  # a matcher that does not use the overlap candidates
+        for cargs, ckw, node in calls:
+            n += 1
+            bound = {}
+            tp = [p.name for p in target.params]
+            for i, a in enumerate(cargs):
+                if i < len(tp):
+                    bound[tp[i]] = a
+            bound.update(ckw)
+            want = {}
+            for pn in tp:
+                lp = pn.lower()
+                if lp.startswith("pred"):
+                    want[pn] = Sym("PRED_ARR")
+                elif lp.startswith("ref") and "label" in lp:
+                    want[pn] = Sym("REF_LABELS")
+                elif lp.startswith("ref"):
+                    want[pn] = Sym("REF_ARR")
+                elif "metric" in lp:
+                    want[pn] = me
+            bad = {pn: repr(bound.get(pn)) for pn, w in want.items() if not (bound.get(pn) is w or bound.get(pn) == w)}
+            ctx.decide("R03.7", f, node, f"{f.qual}->candidates", "the candidate function receives the pair's prediction array, reference array, reference labels and the configured metric, each in its own parameter", not bad, {"mismatched": bad, "want": {k: repr(v) for k, v in want.items()}})
+    if n < 2:
+        ctx.undecided("R03.7.floor", None, None, "floor:R03.7", f"{n} candidate calls observed from matchers, confirmed floor is 2")
+
+
 def check(ctx: Ctx):
     check_no_pruning(ctx)
+    _guarded(ctx, "R03.7", check_candidate_call)
     _guarded(ctx, "R03.1", check_codec)
     _guarded(ctx, "R03.2", check_candidates)
     _guarded(ctx, "R03.3", check_beats)
@@ -710,4 +779,9 @@ VARIANTS = [
     Variant("C03-t-tracking-sets", "R03.4", "twin", [(_M, _GUARD, "            if pred_label in done_pred or (ref_label in done_ref and not self._allow_many_to_one):\n                continue"), (_M, "        labelmap = InstanceLabelMap()\n\n        pred_arr, ref_arr = (\n            unmatched_instance_pair.prediction_arr,\n            unmatched_instance_pair.reference_arr,\n        )\n        mm_pairs = _calc_matching_metric_of_overlapping_labels(\n            pred_arr, ref_arr, ref_labels, matching_metric=self._matching_metric\n        )", "        labelmap = InstanceLabelMap()\n        done_pred: set[int] = set()\n        done_ref: set[int] = set()\n\n        pred_arr, ref_arr = (\n            unmatched_instance_pair.prediction_arr,\n            unmatched_instance_pair.reference_arr,\n        )\n        mm_pairs = _calc_matching_metric_of_overlapping_labels(\n            pred_arr, ref_arr, ref_labels, matching_metric=self._matching_metric\n        )"), (_M, "                # Match found, increment true positive count and collect IoU and Dice values\n                labelmap.add_labelmap_entry(pred_label, ref_label)\n                # map label ref_idx to pred_idx\n        return labelmap\n\n    @classmethod\n    def _yaml_repr(cls, node) -> dict:\n        return {\n            \"matching_metric\": node._matching_metric,\n            \"matching_threshold\": node._matching_threshold,\n            \"allow_many_to_one\"", "                labelmap.add_labelmap_entry(pred_label, ref_label)\n                done_pred.add(pred_label)\n                done_ref.add(ref_label)\n        return labelmap\n\n    @classmethod\n    def _yaml_repr(cls, node) -> dict:\n        return {\n            \"matching_metric\": node._matching_metric,\n            \"matching_threshold\": node._matching_threshold,\n            \"allow_many_to_one\"")]),
     Variant("C03-m-tracking-early", "R03.4", "mutant", [(_M, _GUARD, "            if pred_label in seen_pred:\n                continue\n            seen_pred.add(pred_label)\n            if labelmap.contains_ref(ref_label) and not self._allow_many_to_one:\n                continue"), (_M, "        labelmap = InstanceLabelMap()\n\n        pred_arr, ref_arr = (\n            unmatched_instance_pair.prediction_arr,\n            unmatched_instance_pair.reference_arr,\n        )\n        mm_pairs = _calc_matching_metric_of_overlapping_labels(\n            pred_arr, ref_arr, ref_labels, matching_metric=self._matching_metric\n        )", "        labelmap = InstanceLabelMap()\n        seen_pred: set[int] = set()\n\n        pred_arr, ref_arr = (\n            unmatched_instance_pair.prediction_arr,\n            unmatched_instance_pair.reference_arr,\n        )\n        mm_pairs = _calc_matching_metric_of_overlapping_labels(\n            pred_arr, ref_arr, ref_labels, matching_metric=self._matching_metric\n        )")]),
     Variant("C03-t-guard-contains-or", "R03.4", "twin", [(_M, _GUARD, "            if labelmap.contains_pred(pred_label) or (\n                labelmap.contains_or(pred_label, ref_label) and not self._allow_many_to_one\n            ):\n                continue")]),
+    # R03.7
+    Variant("C03-m-candidates-arrays-swapped", "R03.7", "mutant", [(_M, "            pred_arr, ref_arr, ref_labels, matching_metric=self._matching_metric", "            ref_arr, pred_arr, ref_labels, matching_metric=self._matching_metric")], control=True),
+    Variant("C03-m-candidates-pred-labels", "R03.7", "mutant", [(_M, "        ref_labels = unmatched_instance_pair.ref_labels\n\n        # Initialize variables for True Positives (tp) and False Positives (fp)\n        labelmap = InstanceLabelMap()\n\n        pred_arr, ref_arr = (", "        ref_labels = unmatched_instance_pair.pred_labels\n\n        # Initialize variables for True Positives (tp) and False Positives (fp)\n        labelmap = InstanceLabelMap()\n\n        pred_arr, ref_arr = (")]),
+    Variant("C03-m-merge-candidates-swapped", "R03.7", "mutant", [(_M, "            prediction_arr=pred_arr,\n            reference_arr=ref_arr,\n            ref_labels=ref_labels,\n            matching_metric=self._matching_metric,", "            prediction_arr=ref_arr,\n            reference_arr=pred_arr,\n            ref_labels=ref_labels,\n            matching_metric=self._matching_metric,")]),
+    Variant("C03-t-candidates-keywords", "R03.7", "twin", [(_M, "            pred_arr, ref_arr, ref_labels, matching_metric=self._matching_metric", "            reference_arr=ref_arr, prediction_arr=pred_arr, ref_labels=ref_labels, matching_metric=self._matching_metric")]),
 ]
